@@ -753,6 +753,27 @@ def s_winwin_call_loop(out: f32[4, 8]):
             out[i, j] = x[6 + i, j]
 
 
+@seed("alloc", "loop2", "dims")
+@proc
+def s_alloc2d_lit(x: f32[8]):
+    # 2-D scratch buffer with literal extents (mult_dim / divide_dim / rearrange_dim / resize_dim all apply)
+    a: f32[2, 4]
+    for i in seq(0, 2):
+        for j in seq(0, 4):
+            a[i, j] = x[4 * i + j]
+    for i in seq(0, 2):
+        for j in seq(0, 4):
+            x[4 * i + j] = a[i, j] + 1.0
+
+
+@seed("data_const")
+@proc
+def s_real_consts(x: f32[2], y: f32[2]):
+    # real-valued constant sub-expressions (division, product, difference of literals)
+    for i in seq(0, 2):
+        y[i] = x[i] * (1.0 / 3.0) + (2.0 * 0.25) - (1.0 - 0.5) / 4.0
+
+
 @seed("alloc", "if_else", "free")
 @proc
 def s_else_last_use(n: size, f: index, src: f32[n], dst: f32[n]):
